@@ -115,6 +115,10 @@ def impl(case, interpreted):
         return "err"
 
 
+def impl_compiled(case):
+    return impl(case, False)
+
+
 def model_line(case):
     return f"smooth {case['op']} {hexf(case['bw'])} {fvec(case['freq'])} {fmat(case['rows'])} {fvec(case['fcs'])}"
 
@@ -244,6 +248,7 @@ def run(ctx):
         if i % 4 == 0:
             spec_probes(ctx, c, comp)
             ctx.supporting["spec_probe_cases"] = ctx.supporting.get("spec_probe_cases", 0) + 1
+    reverse_order_probe(ctx, "c02", "impl_compiled", cases, "weight-normalised-average-under-published-kernel", "SMOOTHING_OPERATORS called in another order / fresh interpreter")
 
 
 def replay(case):
